@@ -2,6 +2,7 @@
 import os
 import random
 import shutil
+import re
 import subprocess
 import tempfile
 
@@ -42,10 +43,15 @@ def make_split(st, rng, nfiles):
     return items, files
 
 
+# the blank between the keyword and the quoted name is optional, either quote will do, case is free
+INCLUDE_SPELLINGS = ["include '%s'", "include'%s'", "INCLUDE \"%s\"", "Include   '%s'", "include\"%s\""]
+_INC_RE = re.compile(r"include\s*(['\"])(.*?)\1\s*$", re.I)
+
+
 def render_items(items, st, names):
     out = []
     for kind, k in items:
-        out.append(st[k].line("") if kind == "s" else "include '%s'" % names[k])
+        out.append(st[k].line("") if kind == "s" else INCLUDE_SPELLINGS[k % len(INCLUDE_SPELLINGS)] % names[k])
     return "\n".join(out) + "\n"
 
 
@@ -103,8 +109,8 @@ def check_one(arg):
         got = []
         rd = fp.FortranStringReader(msrc, include_dirs=[d1, d2, d3], ignore_comments=True)
         for it in rd:
-            if it.line.lower().startswith("include '"):
-                got.append(("inc", it.line.split("'")[1]))
+            if _INC_RE.match(it.line):
+                got.append(("inc", _INC_RE.match(it.line).group(2)))
             else:
                 got.append((it.line, it.label, it.name))
         if got != want:
